@@ -198,7 +198,12 @@ def run(ck):
             kinds = None
         elif kinds != ["read", "seek", "write", "return"]:
             probs.append(f"order of the file operations in the with-block is {kinds}; reference read, seek(0), write(successor), return old")
-        if [n for n in f.node.body if isinstance(n, ast.Return)]:
+        outer_rets = [n for n in f.node.body if isinstance(n, ast.Return)]
+        if outer_rets and kinds == ["read", "seek", "write"] and len(outer_rets) == 1 and f.node.body[-1] is outer_rets[0] \
+                and var and ast.unparse(outer_rets[0].value) == var:
+            kinds = ["read", "seek", "write", "return"]      # the old count is returned right after the with-block: same order
+            probs[:] = [p_ for p_ in probs if not p_.startswith("order of the file operations")]
+        elif outer_rets:
             probs.append("a return outside the with-block")
     if not (len(withs) == 1 and kinds is None):
         ck.verdict("P-MUST", "FileSeqCountProvider.get_and_increment", "read count, seek(0), write successor + newline, return old count - in this order inside the with-block", probs, "straight-line block")
